@@ -587,7 +587,12 @@ pub fn run(ctx: &Ctx) -> Report {
     // (4) thorough: real proc-macro, separate rustc processes
     if ctx.tier == Tier::Thorough {
         match real_compiler_runs(ctx, &batch, &first) {
-            Ok(n) => rep.evidence.set("unpretty_expanded_runs_compared", json!(n)),
+            Ok((n, differing)) => {
+                rep.evidence.set("unpretty_expanded_runs_compared", json!(n));
+                for (i, a, b) in differing.into_iter().take(3) {
+                    report(i, "the real proc-macro expands differently in two rustc processes (-Zunpretty=expanded)", &a, &b, &mut rep);
+                }
+            }
             Err(e) => rep.infra_errors.push(format!("-Zunpretty=expanded stage: {e}")),
         }
     }
@@ -609,7 +614,7 @@ fn class_of(d: &str) -> &'static str {
 
 /// Puts the hashed-collection cases whose in-process expansion is Ok into a crate and expands it 4 times with the
 /// real proc-macro dylib (`cargo +nightly rustc -- -Zunpretty=expanded`), touching the source in between.
-fn real_compiler_runs(ctx: &Ctx, batch: &[Case], first: &[String]) -> Result<usize, String> {
+fn real_compiler_runs(ctx: &Ctx, batch: &[Case], first: &[String]) -> Result<(usize, Vec<(usize, String, String)>), String> {
     let dir = ctx.work_dir.join("gen").join("gen_c19");
     std::fs::create_dir_all(dir.join("src")).map_err(|e| e.to_string())?;
     let toml = format!(
@@ -654,14 +659,44 @@ fn real_compiler_runs(ctx: &Ctx, batch: &[Case], first: &[String]) -> Result<usi
             return Err(format!("unexpected output of -Zunpretty=expanded: {}", String::from_utf8_lossy(&out.stderr).chars().take(800).collect::<String>()));
         }
         // drop the touch marker line
-        outs.push(text.lines().filter(|l| !l.starts_with("// round")).collect::<Vec<_>>().join("\n"));
+        // (the pretty-printer may attach the trailing comment to the last item, indented)
+        outs.push(text.lines().filter(|l| !l.trim_start().starts_with("// round")).collect::<Vec<_>>().join("\n"));
     }
+    // per case module `mod c<i> { .. }`: the text between its header and the next module's header
+    let split = |o: &str| -> std::collections::BTreeMap<usize, String> {
+        let mut m = std::collections::BTreeMap::new();
+        let mut cur: Option<usize> = None;
+        for l in o.lines() {
+            if let Some(r) = l.strip_prefix("mod c") {
+                if let Some(n) = r.split_whitespace().next().and_then(|x| x.parse::<usize>().ok()) {
+                    cur = Some(n);
+                }
+            }
+            if let Some(c) = cur {
+                let e: &mut String = m.entry(c).or_default();
+                e.push_str(l);
+                e.push('\n');
+            }
+        }
+        m
+    };
+    let base = split(&outs[0]);
+    let mut differing = vec![];
     for o in &outs[1..] {
         if *o != outs[0] {
-            return Err("VIOLATION-LIKE: expansions differ between rustc processes (see gen_c19)".into());
+            let other = split(o);
+            for (i, a) in &base {
+                let b = other.get(i).cloned().unwrap_or_default();
+                if *a != b && !differing.iter().any(|d: &(usize, String, String)| d.0 == *i) {
+                    differing.push((*i, a.chars().take(3000).collect(), b.chars().take(3000).collect()));
+                }
+            }
+            if differing.is_empty() {
+                return Err("expansions differ between rustc processes outside the case modules (see gen_c19)".into());
+            }
         }
     }
-    Ok(outs.len())
+    Ok((outs.len(), differing))
 }
 
 pub fn replay(ctx: &Ctx, case: &Value) -> Report {
